@@ -1,4 +1,4 @@
-"""Per-property configuration of the check driver."""
+"""Per-property configuration of the check driver (SPEC) and of the manifest (CLAIMS)."""
 
 ASSUMPTIONS = [
     "A1: the native x86_64 build of beff-core/beff-wasm behaves like the shipped wasm32 build (same source, no cfg(target_arch))",
@@ -6,27 +6,57 @@ ASSUMPTIONS = [
     "A3: the reference models (js/ref, harness/src/refmodel.rs) are the trusted base for what TypeScript means; they are three-valued and unspecified cases are counted, never judged",
 ]
 
-SPEC = {
-    "C01": {
-        "engine": "node",
-        "rule": "cases = (generated program, parser, value) triples: values are members built from the reference, one-edit mutants of them and a fixed hostile pool; "
-                "judged = reference verdict is not 'unspecified'. distinct_nontrivial = distinct (structural type key, value class) pairs, counted with a set, "
-                "restricted to types that had both an accepted and a rejected value in this run",
-        "floor": {"quick": 5000, "thorough": 200000},
-        "workload_exclusions": ["a declared property literally named __proto__ stays in its probe only (known finding C01-proto-key)",
-                                "Record<number,V> / number index signatures stay in their probe only (known finding C01-number-index)"],
-    },
-}
-
 HOOK_COMMITS = ["c4252cd"]
 
+SPEC = {}
+CLAIMS = {}
 NOT_CLAIMED = {}
 
-CLAIMS = {
-    "C01": {
-        "technique": "reference-model runtime monitor: real compiler + real client validators vs. an independent three-valued TypeScript membership model, on generated programs x (members, one-edit mutants, hostile values); violations localised by re-execution",
-        "text": "Every generated (program, parser, value) triple is compiled by the real extract+emit_code, loaded against the real client runtime and judged against an independent reference interpreter of the TypeScript subset. "
-                "Held means: no disagreement outside the recorded known findings on ~6e5 (quick) / ~1.5e7 (thorough) judged pairs; reach is bounded by the generator grammar (depth<=4, <=10 declarations) and the reference's specified region.",
-        "note": "Trusted: the reference model js/ref (three-valued; unspecified cases are not judged), type stripping of the client (A2), native build = wasm build (A1). Not covered: programs outside the generator grammar, values outside the value generators.",
-    },
+TRUST_REF = ("Trusted: the reference model js/ref (three-valued; unspecified cases are not judged), type stripping of the client (A2), "
+             "native build = wasm build (A1). Not covered: programs outside the generator grammar (depth<=4, <=10 declarations), values outside the value generators.")
+
+# ------------------------------------------------------------------------------------------ C01
+SPEC["C01"] = {
+    "engine": "node",
+    "rule": "cases = (generated program, parser, value) triples: values are members built from the reference, one-edit mutants of them and a fixed hostile pool; "
+            "judged = reference verdict is not 'unspecified'. distinct_nontrivial = distinct (structural type key, value class) pairs, counted with a set, "
+            "restricted to types that had both an accepted and a rejected value in this run",
+    "floor": {"quick": 5000, "thorough": 200000},
+    "workload_exclusions": [],
+}
+CLAIMS["C01"] = {
+    "technique": "reference-model runtime monitor: real compiler + real client validators vs. an independent three-valued TypeScript membership model, on generated programs x (members, one-edit mutants, hostile values); violations localised by re-execution",
+    "text": "Every generated (program, parser, value) triple is compiled by the real extract+emit_code, loaded against the real client runtime and judged against an independent reference interpreter of the TypeScript subset. "
+            "Held means: no disagreement outside the recorded known findings on ~6e5 (quick) / ~1.5e7 (thorough) judged pairs; reach is bounded by the generator grammar and the reference's specified region.",
+    "note": TRUST_REF,
+}
+
+# ------------------------------------------------------------------------------------------ C11
+SPEC["C11"] = {
+    "engine": "node",
+    "rule": "cases = (generated program, parser, value): members and one-edit mutants (incl. an extra key at a random object position, hostile key names); judged = reference strict verdict is specified. "
+            "distinct_nontrivial = distinct (structural type key, value class) pairs over types for which strict mode rejected some value that default mode accepted AND accepted another",
+    "floor": {"quick": 5000, "thorough": 200000},
+}
+CLAIMS["C11"] = {
+    "technique": "reference-model runtime monitor on two runs of every validator (default vs disallowExtraProperties) + reference-free relation strict => default",
+    "text": "For every generated (program, parser, value): validate(v) and validate(v,{disallowExtraProperties:true}) of the real client are compared with the reference's strict membership "
+            "(declared keys = all members of an intersection, the matching union branch, keys admitted by an index signature). Held = no disagreement outside recorded known findings on the judged pairs.",
+    "note": TRUST_REF + " Symbol keys and non-enumerable keys are unspecified.",
+}
+
+# ------------------------------------------------------------------------------------------ C03
+SPEC["C03"] = {
+    "engine": "node",
+    "rule": "cases = (parser, value, ParseOptions) triples over compiled validators of generated programs (values: members, mutants, hostile pool, objects assembled from several union branches) "
+            "and b.*/buntyped ad-hoc validators, all four option combinations; each triple runs validate/safeParse/parse, re-validates and re-parses the data, checks projection, key-order invariance, "
+            "input snapshot and a second run on the frozen input. distinct_nontrivial = distinct (type key, options, value class) among ACCEPTED triples (the ones whose data is checked)",
+    "floor": {"quick": 5000, "thorough": 200000},
+}
+CLAIMS["C03"] = {
+    "technique": "relational runtime monitor over recorded results of validate/safeParse/parse (agreement, idempotence, projection, key-order invariance) + input snapshot/deep-freeze mutation monitor",
+    "text": "For every (validator, value, options) triple the three entry points of the real client are run and their results related to each other; successful data is re-validated, re-parsed, "
+            "checked to be a projection of the input made of declared parts only, compared across objectKeyOrder, and the input is snapshotted before and deep-frozen for a second run. "
+            "Held = no relation broken outside recorded known findings.",
+    "note": "No membership oracle is needed except 'declared somewhere' (generous over-approximation from js/ref). Inputs whose own code throws (getters, Proxy traps) are not generated. A2/A1 as everywhere.",
 }
